@@ -38,6 +38,9 @@ def complete_dict(module_context, code_lines, leaf, position, string, fuzzy):
         context = module_context.create_context(bracket_leaf)
 
         before_node = before_bracket_leaf = bracket_leaf.get_previous_leaf()
+        if before_node is None:
+            # The bracket is the first leaf of the file.
+            return []
         if before_node in (')', ']', '}'):
             before_node = before_node.parent
         if before_node.type in ('atom', 'trailer', 'name'):
